@@ -87,7 +87,16 @@ def run(tier):
     found = c09.analyse(chk, tier, ("C11",))
     c09.report(chk, found, strip)
     # dynamic half: guard pages
-    chk.exec_and_validate("T_Guard", gen(chk, tier), keyfn, accel=True, pure_budget=0)
+    cmds = gen(chk, tier)
+    chk.exec_and_validate("T_Guard", cmds, keyfn, accel=True, pure_budget=0)
+    # the arm64 Go glue transplanted onto the amd64 kernels (vlib/glue.py): its pointer/count arguments to the
+    # kernels are not bounds-checked by Go, so the same guarded AEAD scenarios are run through it
+    gl = [dict(c) for c in cmds if c.get("op") in ("scenario", "guard.aead")]
+    for c in gl:
+        if c.get("op") == "scenario":
+            c["cls"] = "glue_" + c.get("cls", "")
+    chk.exec_and_validate("T_Guard", gl, lambda b: "glue." + keyfn(b), accel=True, pure_budget=0, tag="glue",
+                          variant="glue")
     return chk.finish(
         "model_checking",
         "static: the TLA+ abstract machine executes every extracted amd64 routine for each length vector with pointers "
@@ -99,7 +108,8 @@ def run(tier):
         "short src or dst must panic without touching memory beyond the slice",
         ["TLC; AsmMachine.tla + vlib/asmx.py classification (fail closed); mmap/mprotect guard placement in the executor",
          "debug.SetPanicOnFault turns faults in assembly into recoverable panics (measured in this sandbox)",
-         "arm64: static half only (all twelve TEXT symbols in the abstract machine); nothing arm64 can be executed here"])
+         "arm64: static half for the twelve TEXT symbols (nothing arm64 can be executed here); its Go glue "
+         "(sm4_gcm_arm64.go) runs the guarded AEAD scenarios transplanted onto the amd64 kernels"])
 
 
 def replay(path):
